@@ -183,13 +183,29 @@ class ShiftEval:
         """Is the value computed in double precision whatever the dtype of the array --
         i.e. does the expression involve the float64 centres, a float literal or a local
         computed from them?  Such a value is ROUNDED when stored into a narrower column."""
+        def source(x):
+            for y in ast.walk(x):
+                if isinstance(y, ast.Attribute) and y.attr == 'centers':
+                    return True
+                if isinstance(y, ast.Constant) and isinstance(y.value, float):
+                    return True
+                if isinstance(y, ast.Name) and y.id in getattr(self, 'env_wide', ()):
+                    return True
+            return False
+        # only ARITHMETIC with a double-precision operand produces a value that is not already
+        # representable in the column's dtype; selecting between the column and a constant
+        # (np.where) or comparing does not
         for x in ast.walk(e):
-            if isinstance(x, ast.Attribute) and x.attr == 'centers':
+            if isinstance(x, ast.BinOp) and isinstance(x.op, (ast.Add, ast.Sub, ast.Mult, ast.Div,
+                                                              ast.Mod, ast.Pow)) and \
+                    (source(x.left) or source(x.right)):
                 return True
-            if isinstance(x, ast.Constant) and isinstance(x.value, float):
+            if isinstance(x, ast.Call) and dotted(x.func) in ('np.mod', 'np.remainder', 'np.fmod',
+                                                              'np.add', 'np.subtract') and \
+                    any(source(a) for a in x.args):
                 return True
-            if isinstance(x, ast.Name) and x.id in getattr(self, 'env_wide', ()):
-                return True
+        if isinstance(e, ast.Name) and e.id in getattr(self, 'env_wide', ()):
+            return True
         return False
 
     def cond(self, e):
